@@ -589,6 +589,24 @@ def multiply_orchestration_cases():
                         return "%s: new segments %s" % (what, new)
                     if any(g.segment(x).RC != 12 // factor for x in ["a"] + new):
                         return "%s: counts %s" % (what, [g.segment(x).RC for x in ["a"] + new])
+    return _multiply_referred_name()
+
+
+def _multiply_referred_name():
+    """a name that a group refers to before any line defines it is in use: no copy takes it"""
+    import gfapy
+    g = gfapy.Gfa(["S\tA\t8\t*", "U\tu1\tB A*2"], version="gfa2", vlevel=0)
+    g.multiply("A", 2)
+    if "A*2" in g.segment_names:
+        return "multiply('A', 2): the copy took the name A*2, which the group u1 refers to: %r" % str(g)
+    g = gfapy.Gfa(["S\tA\t8\t*", "U\tu1\tB A*2"], version="gfa2", vlevel=0)
+    before = str(g)
+    try:
+        g.multiply("A", 2, copy_names=["A*2"])
+        return "multiply('A', 2, copy_names=['A*2']) accepted a name that the group u1 refers to"
+    except gfapy.NotUniqueError:
+        if str(g) != before:
+            return "refused copy name changed the graph"
     return True
 
 
